@@ -167,6 +167,18 @@ Section C05_column.
     = n_sec2 x * (n_u x k * (n_vort x k + n_f x) - spec_vadv c (spec_sigma_dot c (gcol x)) (n_v x) k
                   + cR c * (T k * (1 + (mRv m / cR c - 1) * q k)) * n_gy x).
   Proof. intros; apply refines_momentum; assumption. Qed.
+
+  (** the public option [vertical_advection = upwind_vertical_advection]: the code's operator (Model/Sigma.v, tied to the
+      implementation by C13) is the specification's first-order upwind difference; it vanishes on level-independent
+      profiles and in the interior is  -(max(w_{n-1/2},0) dX_{n-1/2} + min(w_{n+1/2},0) dX_{n+1/2}) *)
+  Theorem C05_upwind_is_spec (w x : nat -> F) n :
+    upwind_vertical_advection (cK c) (cb c) w x n = spec_vadv_upwind c w x n /\
+    ((forall k, x k = x 0%nat) -> spec_vadv_upwind c w x n = 0) /\
+    ((0 < n)%nat -> (S n < cK c)%nat ->
+     spec_vadv_upwind c w x n = - (fmax (w (n - 1)%nat) 0 * spec_ddsigma c x (n - 1) + fmin (w n) 0 * spec_ddsigma c x n)).
+  Proof.
+    split; [apply upwind_is_spec|]. split; [apply upwind_constant|apply upwind_one_sided].
+  Qed.
 End C05_column.
 
 (** * (B') modal layer: the model's divergence / vorticity tendencies are the clipped modal operators applied
@@ -580,6 +592,7 @@ Print Assumptions C05_rest_isothermal_steady.
 Print Assumptions C05_primeq_column_refines_spec.
 Print Assumptions C05_primeq_column_refines_spec_moist.
 Print Assumptions C05_primeq_column_refines_momentum.
+Print Assumptions C05_upwind_is_spec.
 Print Assumptions C05_primeq_refines_spec.
 Print Assumptions C05_primeq_refines_spec_modal_moist.
 Print Assumptions C05_rest_isothermal_steady_moist.
